@@ -141,6 +141,10 @@ def eval_call(V, node, st):
         for a in node.args:
             pass
         return MNONE
+    if isinstance(f, ast.Name) and f.id in V.c.drop_calls and f.id not in st.env:
+        # contract-declared drop (e.g. `from jedi.debug import dbg`): listed in the evidence like the debug.* calls
+        V.dropped_calls.append('%s@%d' % (f.id, node.lineno))
+        return MNONE
     # mutating method on a named container / field: compute and write back
     if isinstance(f, ast.Attribute) and f.attr in MUTATORS:
         recv = V.ev(f.value, st)
